@@ -26,13 +26,14 @@ UnarySeq == << VStr(""), VStr("ab"), VInt(3), VStr("Ab C"), VStr(" a b "), VFlt(
 RepSeq   == << VStr("a,b"), VStr("a b"), VInt(3), VStr("a  b"), VStr("a,,b"), VStr("ab"), VStr(""), None >>
 SplSeq   == << VStr("a b"), VStr("a  b"), VStr("a.b c"), VInt(3), VStr(""), VStr("ab"), None >>
 AwKinds == <<"fut", "coro", "task">>
-Aw(i, kind) == <<"aw", <<i, kind>>>>
+Aw(i, kind) == <<"aw", <<i, kind, 0>>>>
 Cyc(seq, n) == seq[(n % Len(seq)) + 1]
 LeafOf(menu, base, code) == CASE menu = "int" -> VInt(base + code)
                               [] menu = "unary" -> Cyc(UnarySeq, base + code)
                               [] menu = "rep"   -> Cyc(RepSeq, base + code)
                               [] menu = "spl"   -> Cyc(SplSeq, base + code)
                               [] menu = "aw"    -> Aw(base + code, Cyc(AwKinds, base + code))
+                              [] menu = "co"    -> Aw(base + code, "coro")
                               [] menu = "awmix" -> IF code % 2 = 1 THEN Aw(base + code, Cyc(AwKinds, base + code)) ELSE VInt(base + code)
 RECURSIVE Build(_, _, _, _)
 Build(s, menu, base, code) ==
